@@ -171,6 +171,22 @@ def upsplit_sample(rng, n_nodes):
     return {"ins": INS, "nodes": nodes, "outs": list(names)}
 
 
+def three_input_family():
+    """a node with THREE inputs, two or three of which carry one originating split (a.out twice, directly and through
+    a plain node), in every assignment to x, y, z; plus an independent third input"""
+    import itertools as it
+    out = []
+    for a_split in (leaf("x"), node_("*", [leaf("x"), leaf("y")])):
+        two = a_split["op"] != "f"
+        n0 = {"name": "n0", "x": src("wf", "A"), "y": src("wf", "B") if two else src("none"), "hassplit": True, "split": a_split, "comb": []}
+        n1 = {"name": "n1", "x": src("node", "n0"), "y": src("none"), "hassplit": False, "split": DUMMY, "comb": []}
+        for trio in sorted(set(it.permutations(["n0", "n0", "n1"]))) + [("n0", "n1", "wfB"), ("n1", "wfs", "n0")]:
+            s3 = [src("wf", t[2:]) if t.startswith("wf") else src("node", t) for t in trio]
+            n2 = {"name": "n2", "x": s3[0], "y": s3[1], "z": s3[2], "hassplit": False, "split": DUMMY, "comb": []}
+            out.append({"ins": INS, "nodes": [n0, n1, n2], "outs": ["n0", "n1", "n2"], "family": "three-input"})
+    return out
+
+
 def empty_split_family():
     """p -> e (split over p.out, combined) -> d, with an independent branch q: the list p returns has 0, 1 or 2
     elements; e has as many jobs (possibly none) and d always runs once."""
@@ -224,7 +240,8 @@ def tlc_expected(ctx, wfs, tag="wf"):
     f = ctx.scratch / f"{tag}_cases.ndjson"
     with open(f, "w") as fh:
         for i, w in enumerate(wfs, 1):
-            nodes = [{**nd, "inner": nd.get("inner", "none"), "mk": nd.get("mk", -1)} for nd in w["nodes"]]
+            nodes = [{**nd, "inner": nd.get("inner", "none"), "mk": nd.get("mk", -1), "z": nd.get("z", src("none"))}
+                     for nd in w["nodes"]]
             fh.write(json.dumps({"tid": i, "ins": w["ins"], "nodes": nodes, "outs": w["outs"]}) + "\n")
     r = ctx.tlc("WfState_Eval", cfg="WfState_Eval.cfg", workers=1, env={"TRACE_FILE": str(f)}, timeout=3000)
     res = {rec["tid"]: rec["res"] for rec in r.printed()}
@@ -243,6 +260,8 @@ def conv(t):
         return "S_" + t["inp"]
     if k == "list":
         return [conv(x) for x in t["v"]]
+    if k == "term4":
+        return [t["n"], conv(t["x"]), conv(t["y"]), conv(t["z"])]
     if k == "str":
         return t["s"]
     if k == "int":
@@ -260,12 +279,12 @@ def to_spl(t):
 
 def wf_source(wf, spelling="bare"):
     L = ["import typing as ty", "from pydra.compose import python, workflow", "",
-         "@python.define", "def N(name: str, x: ty.Any = None, y: ty.Any = None) -> ty.Any:",
+         "@python.define", "def N(name: str, x: ty.Any = None, y: ty.Any = None, z: ty.Any = None) -> ty.Any:",
          "    import os, time, zlib",
          "    seed = os.environ.get('VERIF_DELAY_SEED')",
          "    if seed:",
          "        time.sleep((zlib.crc32(repr((seed, name, x, y)).encode()) % 40) / 1000.0)",
-         "    return [name, x, y]", "",
+         "    return [name, x, y] if z is None else [name, x, y, z]", "",
          "@python.define", "def M(name: str, k: int, x: ty.Any = None) -> ty.Any:",
          "    import os, time, zlib",
          "    seed = os.environ.get('VERIF_DELAY_SEED')",
@@ -282,8 +301,8 @@ def wf_source(wf, spelling="bare"):
         own = [] if not nd["hassplit"] else ([nd["split"]["name"]] if nd["split"]["op"] == "f" else [k["name"] for k in nd["split"]["kids"]])
         nested = nd.get("inner", "none") != "none"
         args, sargs = ([] if nested else [f"name={nd['name']!r}"]), []
-        for f in ("x", "y"):
-            s = nd[f]
+        for f in ("x", "y", "z"):
+            s = nd.get(f, {"k": "none"})
             if s["k"] == "none":
                 continue
             v = s["v"] if s["k"] == "wf" else f"{s['v']}.out"
